@@ -79,7 +79,7 @@ def parse_report(r, sites):
         tail = rest[len(head):]
         if 'Matches saturated call requirement' in tail:
             o['lk'] = 1
-            for mm in re.finditer(r'^  (.+) at ' + LOC + r'$', tail, re.M):
+            for mm in re.finditer(r'^  (.+?) at ' + LOC + r'\b[^\n]*$', tail, re.M):      # anything may follow the location on the line
                 e, sh, ok = sites.mention(mm.group(1), mm.group(2), mm.group(3))
                 o['lst'].append(e); o['det'].append(sh)
                 o['nameok'] &= ok
@@ -88,7 +88,7 @@ def parse_report(r, sites):
             if parts:
                 o['lk'] = 2
             for p in parts:
-                mm = re.match(r'(.+) at ' + LOC + r'(?:\n|$)', p)
+                mm = re.match(r'(.+?) at ' + LOC + r'\b[^\n]*(?:\n|$)', p)
                 if not mm:
                     o['nameok'] = 0
                     continue
@@ -112,13 +112,13 @@ def parse_report(r, sites):
                         d |= 1 << (int(me.group(1)) - 1)
                 o['lst'].append(e); o['det'].append(d)
         return o
-    m = re.match(r'Match of forbidden call of (.+) at ' + LOC + r'\n', msg)
+    m = re.match(r'Match of forbidden call of (.+?) at ' + LOC + r'\b[^\n]*\n', msg)
     if m:
         o['kind'] = 'forbidden'
         o['ent'], o['sh'], o['nameok'] = sites.mention(m.group(1), m.group(2), m.group(3))
         o['args'], o['argsok'] = parse_params(msg[m.end():])
         return o
-    m = re.match(r'Sequence mismatch for sequence "([^"]*)" with matching call of (.+) at ' + LOC + r'\.', msg)
+    m = re.match(r'Sequence mismatch for sequence "([^"]*)"[^\n]*? matching call of (.+?) at ' + LOC + r'\b', msg)
     if m:
         o['kind'] = 'seqmismatch'
         e, sh, v = sites.ent(m.group(3), m.group(4))
@@ -135,7 +135,7 @@ def parse_report(r, sites):
         rest = msg[m.end():]
         if 'has no more pending expectations' in rest:
             o['nomore'] = 1
-        for mm in re.finditer(r'has (.+) at ' + LOC + r' (first in line|as first required expectation)$', rest, re.M):
+        for mm in re.finditer(r'has (.+?) at ' + LOC + r' (first in line|as first required expectation)', rest):
             e2, sh2, ok = sites.mention(mm.group(1), mm.group(2), mm.group(3))
             o['lst'].append(e2); o['det'].append(1 if mm.group(4).startswith('as first') else 0)
             o['nameok'] &= ok
@@ -154,14 +154,14 @@ def parse_report(r, sites):
         for mm in re.finditer(r'^  param +_(\d+) (matching _|== 1|matching ANY\(int\))$', rest, re.M):
             o['pslots'].append(le)
         return o
-    m = re.match(r'Object (.+) is still alive$', msg)
+    m = re.match(r'Object (.+?) is still alive', msg)
     if m:
         o['kind'] = 'stillalive'
         o['ent'], o['sh'] = le, lsh
         v = sites.by_loc.get('%s:%s' % (os.path.basename(r['file']), r['line']))
         o['nameok'] = 1 if (v and v.get('obj') == m.group(1)) else 0
         return o
-    m = re.match(r'Unexpected destruction of (\S+)@(0x[0-9a-fA-F]+)\n$', msg)
+    m = re.match(r'Unexpected destruction of (\S+)@(0x[0-9a-fA-F]+)', msg)
     if m:
         o['kind'] = 'unexpected_death'
         return o
@@ -169,7 +169,7 @@ def parse_report(r, sites):
     if m:
         o['kind'] = 'seq_teardown'
         rest = msg[m.end():]
-        for mm in re.finditer(r'^  missing (.+) at ' + LOC + r'$', rest, re.M):
+        for mm in re.finditer(r'^  missing (.+?) at ' + LOC + r'\b[^\n]*$', rest, re.M):
             e2, sh2, ok = sites.mention(mm.group(1), mm.group(2), mm.group(3))
             o['lst'].append(e2); o['det'].append(sh2)
             o['nameok'] &= ok
